@@ -30,7 +30,7 @@ func init() {
 	}
 	Registry["C15"] = &Check{
 		Scenarios: c15Scenarios,
-		Rule: "Server.Serve with three connections plus a fourth offered after the fault; accept script: every placement of <=2 temporary accept errors among the offers; connection A suffers one fault from {handler panic, undecodable header with trailing bytes, disconnect in the middle of a message} at every position 1..3 of its three-message sequence; connections B, C and D exchange two request/answer pairs each with bodies that name their connection (the handler checks that the body belongs to the header); after A's fault the application registers a further handler on the running ServeMux, and the first handler of D also writes to A's (failed) diam.Conn, which must simply return an error; C and D are offered only after that, and C's first message is held inside its body until D has been served completely (so a read buffer shared across connections is overwritten); every ordering of environment steps, timers and blocking hand-overs at preemption bound 0 (quick: each accept placement with three of the nine fault/position pairs; thorough: the full product, and preemption bound 1 for the placement without accept errors); back-off sleeps run on the virtual clock. Four scenarios put 9, 10, 12 and 40 consecutive temporary accept errors between two connections. One scenario accepts a connection as TLS whose peer sends 7 bytes of a handshake record and falls silent (later connections must be accepted and served). One scenario accepts a connection as TLS while its peer sends plain Diameter (the handshake fails: the transport must be closed, the other connection served). Three further scenarios (preemption bound 1, thorough 2) put the fault at the third message of a connection whose first handler has requested CloseNotify, so that the notifier goroutine is running when the connection fails.",
+		Rule: "Server.Serve with three connections plus a fourth offered after the fault; accept script: every placement of <=2 temporary accept errors among the offers; connection A suffers one fault from {handler panic, undecodable header with trailing bytes, disconnect in the middle of a message} at every position 1..3 of its three-message sequence; connections B, C and D exchange two request/answer pairs each with bodies that name their connection (the handler checks that the body belongs to the header); after A's fault the application registers a further handler on the running ServeMux, and the first handler of D also writes to A's (failed) diam.Conn, which must simply return an error; C and D are offered only after that, and C's first message is held inside its body until D has been served completely (so a read buffer shared across connections is overwritten); every ordering of environment steps, timers and blocking hand-overs at preemption bound 0 (quick: each accept placement with three of the nine fault/position pairs; thorough: the full product, and preemption bound 1 for the placement without accept errors); back-off sleeps run on the virtual clock. Four scenarios put 9, 10, 12 and 40 consecutive temporary accept errors between two connections. One scenario accepts a connection as TLS whose peer sends 7 bytes of a handshake record and falls silent (later connections must be accepted and served). One scenario accepts a connection as TLS while its peer sends plain Diameter (the handshake fails: the transport must be closed, the other connection served). Three scenarios (bound 1 / 2) put the fault {panic, undecodable header, cut} on a connection whose peer has stopped reading while the handler of a healthy connection is blocked inside a Write to it: the faulty transport is closed all the same, the blocked handler is released with an error and its connection goes on being served. Three further scenarios (preemption bound 1, thorough 2) put the fault at the third message of a connection whose first handler has requested CloseNotify, so that the notifier goroutine is running when the connection fails.",
 		Assume: []string{"data-race freedom between visible operations (audited separately with -race)"},
 		QuickBudget: 150, ThoroughBudget: 2400,
 	}
@@ -553,6 +553,13 @@ func c15Scenarios(tier string) []*Scenario {
 		out = append(out, &Scenario{Name: "faults/closenotify-active/" + fault + "@3", Body: srvBody(o), Check: check, Bound: b, Horizon: 20 * time.Second, Weight: 5,
 			Outcome: func(s *vs.Sched) string { return fmt.Sprintf("events=%d end=%v", len(srvSt.events), s.EndTime) }})
 	}
+	for _, fault := range []string{"panic", "garbage", "cut"} {
+		b := 1
+		if tier == "thorough" {
+			b = 2
+		}
+		out = append(out, c15FaultWhileWriteStuck(fault, b))
+	}
 	// a long burst of temporary accept errors (the back-off reaches and stays at its ceiling), with a
 	// healthy connection before and one after
 	for _, burst := range []int{9, 10, 12, 40} {
@@ -753,4 +760,109 @@ func c08RelayBlocked(withTimeouts bool, bound int) *Scenario {
 	}
 	return &Scenario{Name: fmt.Sprintf("dispatch/relay-to-a-peer-that-does-not-read/server-timeouts=%v", withTimeouts), Body: body, Check: check, Bound: bound, Horizon: 10 * time.Second,
 		Outcome: func(s *vs.Sched) string { return fmt.Sprint(c08rb.handledB) }}
+}
+
+// c15FaultWhileWriteStuck: connection A's peer has stopped reading; the handler of healthy
+// connection B pushes a message to A and is stuck inside that Write. Then A suffers its fault
+// (handler panic / undecodable input / cut). A must be closed all the same - which releases B's
+// handler with an error - and B must go on being served.
+var c15ws struct {
+	a, b      *vnet.Conn
+	handledB  []uint32
+	pushErr   error
+	pushed    bool
+	faultSeen bool
+}
+
+func c15FaultWhileWriteStuck(fault string, bound int) *Scenario {
+	body := func() {
+		st := &c15ws
+		st.handledB, st.pushErr, st.pushed, st.faultSeen = nil, nil, false, false
+		a, b := vnet.NewConn("A"), vnet.NewConn("B")
+		a.Pieces, b.Pieces = 1, 1
+		st.a, st.b = a, b
+		a.WriteBlocked = true
+		var connA diam.Conn
+		lis := vnet.NewListener()
+		mux := diam.NewServeMux()
+		mux.HandleFunc("ALL", func(c diam.Conn, m *diam.Message) {
+			if m.Header.HopByHopID == 1 { // connection A
+				if m.Header.EndToEndID == 1 {
+					connA = c
+					vs.Touch(a, "connA-known")
+					return
+				}
+				st.faultSeen = true
+				vs.Event("handler on A panics")
+				panic("handler panic (injected)")
+			}
+			if m.Header.EndToEndID == 1 {
+				vs.BlockObj("wait-A-known", a, func() bool { return connA != nil })
+				vs.Event("handler on B pushes a message to A (whose peer does not read)")
+				_, st.pushErr = m.WriteTo(connA)
+				st.pushed = true
+				vs.Event("handler on B: push returned %v", st.pushErr)
+			}
+			st.handledB = append(st.handledB, m.Header.EndToEndID)
+		})
+		srv := &diam.Server{Handler: mux, Dict: dict.Default}
+		a.Deliver(srvReq(0, 0))
+		b.Deliver(srvReq(1, 0))
+		lis.Offer(vnet.AcceptItem{Conn: a})
+		lis.Offer(vnet.AcceptItem{Conn: b})
+		vs.GoNamed("serve", false, func() { srv.Serve(lis) })
+		vs.GoNamed("peerA", true, func() {
+			vs.BlockObj("wait-push-stuck", a, func() bool { return a.InWrite > 0 })
+			switch fault {
+			case "panic":
+				vs.Event("peer A sends the request whose handler panics")
+				a.Deliver(srvReq(0, 1))
+			case "garbage":
+				bad := make([]byte, 20)
+				bad[0], bad[3] = 1, 60
+				bad[5], bad[6], bad[7] = 0xff, 0xff, 0xfe
+				st.faultSeen = true
+				vs.Event("peer A sends an undecodable header")
+				a.Deliver(append(bad, ghost40(1)...))
+			case "cut":
+				m := srvReq(0, 1)
+				st.faultSeen = true
+				vs.Event("peer A disconnects in the middle of a message")
+				a.Deliver(m[:len(m)-7])
+				a.PeerEOF()
+			}
+		})
+		vs.GoNamed("peerB", true, func() {
+			vs.BlockObj("wait-A-closed", a, func() bool { return a.Closed })
+			vs.Event("peer B sends its second request")
+			b.Deliver(srvReq(1, 1))
+		})
+	}
+	check := func(s *vs.Sched) string {
+		st := &c15ws
+		var v []string
+		if !st.faultSeen {
+			v = append(v, "harness: the fault never happened")
+		}
+		if !st.a.Closed {
+			v = append(v, "the faulty connection's transport was not closed ("+fault+" while another connection's handler was blocked writing to it)")
+		}
+		if !st.pushed {
+			v = append(v, "the handler of healthy connection B is still blocked in its write to the failed connection A")
+		} else if st.pushErr == nil {
+			v = append(v, "the write to the failed connection reported success although the peer never read it")
+		}
+		if fmt.Sprint(st.handledB) != "[1 2]" {
+			v = append(v, fmt.Sprintf("healthy connection B: requests %v handled, the peer sent [1 2]", st.handledB))
+		}
+		if st.b.Closed {
+			v = append(v, "healthy connection B was closed")
+		}
+		for _, p := range s.Panics() {
+			v = append(v, "panic escaped: "+p)
+		}
+		return strings.Join(v, " | ")
+	}
+	return &Scenario{Name: "faults/while-another-handler-is-stuck-writing-to-it/" + fault, Body: body, Check: check, Bound: bound, Horizon: 10 * time.Second,
+		Outcome: func(s *vs.Sched) string { return fmt.Sprintf("handledB=%v pushErr=%v", c15ws.handledB, c15ws.pushErr) }}
 }
